@@ -425,7 +425,7 @@ class C15:
         rng = random.Random(f"{sh['seed']}/C15/{sh['index']}")
         if sh["kind"] == "reentry":
             names = ["ra", "rb", "rc", "rd"]
-            for i in range(sh["n"]):
+            for i in harness.budgeted(range(sh["n"]), rec):
                 k = rng.randint(1, 4)
                 ns = names[:k]
                 graph = {n: rng.choice(ns) + " " + rng.choice(["x", "-y", "'z z'"]) for n in ns}
@@ -450,7 +450,7 @@ class C15:
         if sh["index"] == 0:
             for t, cmd in directed:
                 cases.append((t, cmd))
-        for _ in range(sh["n"]):
+        for _ in harness.budgeted(range(sh["n"]), rec):
             t = gen_table(rng)
             names = list(t)
             cmd = [rng.choice(names + names + ["nope"])] + [rng.choice(USER_ARGS) for _ in range(rng.randint(0, 4))]
